@@ -225,6 +225,25 @@ def run(ctx):
         ok = bool(pan) and all(dominated_by_edges(ck, b, e) for b in pan) and bool(e) and not (ck.reachable(e[0][1]) & set(ck.return_blocks()))
         ctx.ob("R16.2", "%s::check_no_stdin_data.panics-iff-data" % ty.split("::")[-1], ok, ck.loc(0), "check_no_stdin_data must panic exactly when stdin_data is Some")
 
+    # communicate()/capture() pipe stdout on their own only when the caller asked for neither output stream: a stream the caller left
+    # unset next to a captured one stays inherited (it is reported as absent), it is not silently redirected
+    for ty_, fld_ in ((EXEC, ("config",)), ("builder::pipeline::Pipeline", ())):
+        scf = prog.fn(ty_ + "::setup_communicate")
+        if scf is None:
+            continue
+        Ts_ = M.Terms(scf)
+        selfs = ("param", 1, scf.local_name(1))
+        base_ = selfs
+        for f_ in fld_:
+            base_ = ("field", base_, f_)
+        forced = [(bb, t) for bb, t in scf.calls() if M.callee_str(t["f"]) == ty_ + "::stdout"]
+        if ty_ == EXEC:
+            n_out = variant_edges(scf, Ts_, lambda t: any(M.noref(M.strip(a_)) == ("field", base_, "stdout") for a_ in M.alts(M.noref(M.strip(t)))), REDIR["None"], list(REDIR.values()), "popen::Redirection")
+            n_err = variant_edges(scf, Ts_, lambda t: any(M.noref(M.strip(a_)) == ("field", base_, "stderr") for a_ in M.alts(M.noref(M.strip(t)))), REDIR["None"], list(REDIR.values()), "popen::Redirection")
+            for bb, t in forced:
+                ctx.ob("R16.2", "Exec::setup_communicate.forces-stdout-only-if-both-unset", bool(n_out) and bool(n_err) and dominated_by_edges(scf, bb, n_out) and dominated_by_edges(scf, bb, n_err), scf.loc(bb),
+                       "self.stdout(Pipe) inside setup_communicate must be dominated by config.stdout == None and config.stderr == None")
+
     # ---- R16.3 Exec::shell -------------------------------------------------------------------------
     sh = prog.one("builder::exec::Exec::shell")
     Th = M.Terms(sh)
@@ -321,6 +340,17 @@ def run(ctx):
             tgt = M.noref(M.strip(Tf.operand(mu[0][1]["args"][0])))
             ok = tgt == ("field", ("field", ("param", 1, f.local_name(1)), "config"), "env")
         ctx.ob("R16.4", "%s.snapshot-then-%s" % (meth, mutator.split("::")[-1]), ok, f.loc(0), "Exec::%s must call ensure_env before it edits config.env with %s" % (meth, mutator.split("::")[-1]))
+        # an *ordered edit*: the one mutation is applied on every path (not only when the name is new / present), and nothing else touches the list —
+        # the later of duplicate names wins downstream (format_env), so an in-place overwrite of an earlier entry is silently lost
+        uncond = len(mu) == 1 and all(dominated_by_blocks(f, r_, [mu[0][0]]) for r_ in f.return_blocks())
+        envf = ("field", ("field", ("param", 1, f.local_name(1)), "config"), "env")
+        ACCESS = ("std::option::Option::<T>::as_mut", "std::option::Option::<T>::unwrap", "std::option::Option::<T>::expect", "builder::exec::Exec::ensure_env",
+                  "std::option::Option::<T>::as_deref_mut", "std::option::Option::<T>::get_or_insert_with", mutator)
+        others = sorted({M.callee_str(t_["f"]) for bb_, t_ in f.calls() if not is_panic_call(t_) and M.callee_str(t_["f"]) not in ACCESS
+                         and any(M.contains(Tf.operand(a_), lambda u: u == envf) for a_ in t_["args"])})
+        ctx.ob("R16.4", "%s.unconditional-single-edit" % meth, uncond and not others, f.loc(mu[0][0] if mu else 0),
+               "Exec::%s applies %s on every path to return and performs no other access to config.env (conditional edit: %s; other operations on the list: %s)"
+               % (meth, mutator.split("::")[-1], not uncond, others))
     fe = prog.one("builder::exec::Exec::env")
     Te = M.Terms(fe)
     c = only_call(fe, "std::vec::Vec::<T, A>::push")
@@ -383,6 +413,33 @@ def run(ctx):
             ctx.ob("R16.5", "Exec::clone.%s" % n, okf, cl.loc(ag[0][0]), "cloned %s = %s (must be a clone of self.%s)" % (n, M.term_str(v)[:100], n))
     else:
         ctx.ob("R16.5", "Exec::clone.shape", False, cl.loc(0), "expected one Exec aggregate")
+    # the sibling builder: Pipeline::clone copies every field from the same-named field (a swapped field would rewire the clone)
+    pcl = prog.fn("<builder::pipeline::Pipeline as std::clone::Clone>::clone")
+    if pcl is None:
+        ctx.missing("R16.5", "Pipeline::clone")
+    else:
+        Tpc = M.Terms(pcl)
+        agp = aggregates_of(pcl, "builder::pipeline::Pipeline")
+        selfpc = ("param", 1, pcl.local_name(1))
+        if len(agp) == 1:
+            rp = agp[0][2]
+            for n, o in zip(rp["fields"], rp["ops"]):
+                v = Tpc.operand(o)
+                used = set()
+                def _walk(u):
+                    if isinstance(u, tuple):
+                        if len(u) == 3 and u[0] == "field" and M.noref(u[1]) == selfpc:
+                            used.add(u[2])
+                        for x in u:
+                            _walk(x)
+                    elif isinstance(u, frozenset):
+                        for x in u:
+                            _walk(x)
+                _walk(v)
+                ctx.ob("R16.5", "Pipeline::clone.%s" % n, used == {n} and M.contains(v, lambda u: u[0] == "call"), pcl.loc(agp[0][0]),
+                       "cloned %s is computed from self.%s (must be a clone of self.%s only)" % (n, sorted(used), n))
+        else:
+            ctx.ob("R16.5", "Pipeline::clone.shape", False, pcl.loc(0), "expected one Pipeline aggregate")
     tcf = prog.one("popen::PopenConfig::try_clone")
     Tt = M.Terms(tcf)
     ag = aggregates_of(tcf, "popen::PopenConfig")
